@@ -115,6 +115,7 @@ class Ctx(object):
         self.notes = collections.Counter()
         self.extra = {}
         self.max_samples = 4
+        self.collected = {}
 
     # -- budgets -----------------------------------------------------------------------------
     def n(self, quick, thorough):
@@ -147,6 +148,16 @@ class Ctx(object):
         if entry is not None:
             self.known[entry] += 1
             return
+        if os.environ.get('VERIF_COLLECT'):
+            # development aid: bucket by signature, keep the smallest case, keep searching
+            k = json.dumps(jsonable(signature))
+            size = len(json.dumps(jsonable(case)))
+            cur = self.collected.get(k)
+            if cur is None or size < cur[0]:
+                self.collected[k] = (size, jsonable(case), jsonable(observed), cur[3] + 1 if cur else 1)
+            else:
+                self.collected[k] = (cur[0], cur[1], cur[2], cur[3] + 1)
+            return
         raise violation_class(signature)(signature, case, observed)
 
     def record_violation(self, v):
@@ -158,6 +169,7 @@ class Ctx(object):
             'index': self.index, 'evaluations': self.evaluations, 'nontrivial': sorted(self.nontrivial),
             'classes': dict(self.classes), 'samples': self.samples, 'known': dict(self.known),
             'violations': self.violations, 'notes': dict(self.notes), 'extra': jsonable(self.extra),
+            'collected': self.collected,
         }
 
 
@@ -375,6 +387,21 @@ def run_check(check_id, tier, seed, replay=None):
             violations.append({'replay': os.path.relpath(path, VERIF_ROOT), 'signature': v['signature']})
         if 'error' in r:
             errors.append('shard %d:\n%s' % (r['index'], r['error']))
+
+    collected = {}
+    for r in results:
+        for k, v in r.get('collected', {}).items():
+            cur = collected.get(k)
+            if cur is None or v[0] < cur[0]:
+                collected[k] = [v[0], v[1], v[2], v[3] + (cur[3] if cur else 0)]
+            else:
+                cur[3] += v[3]
+    if collected:
+        os.makedirs(os.path.join(VERIF_ROOT, 'replays', check_id), exist_ok=True)
+        with open(os.path.join(VERIF_ROOT, 'replays', check_id, 'collected.json'), 'w') as f:
+            json.dump(collected, f, indent=1)
+        for k, v in sorted(collected.items(), key=lambda kv: -kv[1][3]):
+            print('COLLECTED x%d %s\n   case: %s\n   observed: %s' % (v[3], k, json.dumps(v[1])[:700], json.dumps(v[2])[:500]))
 
     for kid, n in merged['known'].items():
         e = [x for x in findings.entries if x.get('id') == kid][0]
